@@ -35,6 +35,12 @@ class Tracer:
                         self._sites.setdefault(c["path"], []).append((b, s))
         return self._sites.get(path, [])
 
+    def _grouped(self):
+        """{(outer adt, group field): (group struct, {sub field: flattened field})} — see normalize.py"""
+        if not hasattr(self, "_gr"):
+            self._gr = {(p, f): (sty, m) for p, f, sty, m, tys in (self.F.raw.get("_grouped") or [])}
+        return self._gr
+
     # ---- everything stored into <adt>.<field>
     def field_values(self, adt, field):
         key = (adt, field)
@@ -99,6 +105,12 @@ class Tracer:
             out = []
             for rb, r, rbind in self.roots(b, e.a[0], binding, depth + 1, seen):
                 rs = r.strip()
+                g = self._grouped().get((rs.x.get("adt"), rs.x.get("name"))) if rs.k == "field" else None
+                if g is not None and adt == g[0] and name in g[1] and rs.a:
+                    # `x.group` handed on whole and `.sub` taken at the other end: the field `x.<flattened name>`
+                    flat = Expr("field", [rs.a[0]], name=g[1][name], adt=rs.x.get("adt"), idx=None, ty="")
+                    out += self.roots(rb, flat, rbind, depth + 1, seen)
+                    continue
                 if rs.k == "agg" and rs.x.get("ak") in ("adt", "tuple", "closure"):
                     flds = rs.x.get("fields") or []
                     if name in flds:
@@ -115,6 +127,10 @@ class Tracer:
                     if rs.x.get("ak") == "tuple" and e.x.get("idx", 99) < len(rs.a):
                         out += self.roots(rb, rs.a[e.x["idx"]], rbind, depth + 1, seen)
                         continue
+                if (adt, name) in self._grouped():
+                    # a group of flattened fields read whole: stays symbolic until a component is taken from it
+                    out.append((rb, Expr("field", [r], name=name, adt=adt, idx=None, ty=""), rbind))
+                    continue
                 # the object is not a visible literal: everything ever stored into that field
                 if adt in self.F.adts and self.F.adts[adt]["kind"] == "Struct":
                     key = ("field", adt, name)
